@@ -344,4 +344,191 @@ def Trie.hasPrefix (t : Trie) (word : Str) : Option Bool := t.walk word 0 0
 /-- Contract: some stored key is a prefix of the word. -/
 def hasPrefixSpec (keys : List Str) (w : Str) : Bool := keys.any fun k => k.isPrefixOf w
 
+/-! ## 5. AhocorasickSlimtrie -/
+
+inductive Kind where
+  | full | suffix | keyword | regex | unknown
+deriving DecidableEq, Repr
+
+/-- One pattern of an `AddSet` call.  For `regex` patterns the two oracle fields say whether Go's
+`regexp.Compile` accepts it and give it a number under which match results are reported. -/
+structure Pat where
+  s : Str
+  rxOk : Bool := true
+  rxId : Nat := 0
+deriving Repr, DecidableEq
+
+/-- alphabet of the Aho-Corasick library (`ahocorasick.IsValidChar`): the domain alphabet plus `$`. -/
+def acChars : List Nat := strOf "abcdefghijklmnopqrstuvwxyz-.^$1234567890_"
+def acValid (c : Nat) : Bool := acChars.contains c
+
+def cDot : Nat := 46
+def cHat : Nat := 94
+def cDollar : Nat := 36
+
+def lowerByte (c : Nat) : Nat := if 65 ≤ c ∧ c ≤ 90 then c + 32 else c
+/-- `strings.ToLower` on ASCII input -/
+def lower (s : Str) : Str := s.map lowerByte
+
+/-- `strings.TrimSuffix(s, string(c))` -/
+def trimSuffixByte (c : Nat) (s : Str) : Str := if s.getLast? = some c then s.dropLast else s
+
+/-- `ToSuffixTrieString`: drop one trailing `$`, reverse. -/
+def toSuffixTrieString (s : Str) : Str := (trimSuffixByte cDollar s).reverse
+
+/-- what `AddSet` appends to `toBuildTrie` for one `full` pattern -/
+def normFull (d : Str) : List Str :=
+  if d.all domainChars.isValid then [cHat :: d ++ [cDollar]] else []
+
+/-- … for one `suffix` pattern -/
+def normSuffix (d : Str) : List Str :=
+  if d.all domainChars.isValid then
+    if d.head? = some cDot then [d ++ [cDollar]]
+    else [cDot :: d ++ [cDollar], cHat :: d ++ [cDollar]]
+  else []
+
+/-- … to `toBuildAc` for one `keyword` pattern (after the `fix:` commit: a keyword with a byte outside
+the Aho-Corasick alphabet is skipped like the other kinds). -/
+def normKeyword (d : Str) : List Str := if d.all acValid then [d] else []
+
+structure SetBuild where
+  trie : List Str := []      -- toBuildTrie[i]
+  ac : List Str := []        -- toBuildAc[i]
+  rx : List Nat := []        -- n.regexp[i] (oracle numbers)
+deriving Repr
+
+inductive MErr where
+  | tooMany | badRegex | unknownKind | charOutOfRange
+deriving DecidableEq, Repr
+
+structure Matcher where
+  sets : Array SetBuild
+  err : Option MErr := none
+deriving Repr
+
+def Matcher.new (bitLength : Nat) : Matcher := ⟨Array.replicate bitLength {}, none⟩
+
+/-- `AddSet` -/
+def Matcher.addSet (m : Matcher) (idx : Nat) (kind : Kind) (pats : List Pat) : Matcher :=
+  if m.err.isSome then m
+  else if idx ≥ m.sets.size then { m with err := some .tooMany }
+  else match kind with
+    | .full => { m with sets := m.sets.modify idx fun sb => { sb with trie := sb.trie ++ pats.flatMap (normFull ·.s) } }
+    | .suffix => { m with sets := m.sets.modify idx fun sb => { sb with trie := sb.trie ++ pats.flatMap (normSuffix ·.s) } }
+    | .keyword => { m with sets := m.sets.modify idx fun sb => { sb with ac := sb.ac ++ pats.flatMap (normKeyword ·.s) } }
+    | .regex =>
+      if pats.all (·.rxOk) then
+        { m with sets := m.sets.modify idx fun sb => { sb with rx := sb.rx ++ pats.map (·.rxId) } }
+      else { m with err := some .badRegex }
+    | .unknown => if pats.isEmpty then m else { m with err := some .unknownKind }
+
+structure BuiltSet where
+  keys : List Str            -- `ToSuffixTrieStrings(toBuildTrie[i])`
+  trie : Option Trie         -- `n.trie[i]`
+  ac : List Str
+  rx : List Nat
+deriving Repr
+
+structure Built where
+  sets : Array BuiltSet
+deriving Repr
+
+def buildSet (sb : SetBuild) : Except MErr BuiltSet :=
+  let keys := sb.trie.map toSuffixTrieString
+  if !(sb.ac.all fun p => p.all acValid) then .error .charOutOfRange   -- ahocorasick.NewMatcher
+  else if keys.isEmpty then .ok ⟨keys, none, sb.ac, sb.rx⟩
+  else match Trie.build domainChars keys with
+    | .ok t => .ok ⟨keys, some t, sb.ac, sb.rx⟩
+    | _ => .error .charOutOfRange
+
+/-- `Build` -/
+def Matcher.build (m : Matcher) : Except MErr Built :=
+  match m.err with
+  | some e => .error e
+  | none => do
+    let sets ← m.sets.toList.mapM buildSet
+    pure ⟨sets.toArray⟩
+
+/-- substring test -/
+def isInfix (p : Str) : Str → Bool
+  | [] => p.isEmpty
+  | c :: s => p.isPrefixOf (c :: s) || isInfix p s
+
+/-- the Aho-Corasick library reads every input byte through its table, so a byte outside its
+alphabet is read as `a` -/
+def acNorm (c : Nat) : Nat := if acValid c then c else 97
+
+/-- `ahocorasick.Matcher.Contains` (trusted library behaviour): some non-empty dictionary word
+occurs in the input. -/
+def acContains (pats : List Str) (input : Str) : Bool :=
+  pats.any fun p => !p.isEmpty && isInfix p (input.map acNorm)
+
+/-- `strings.ToLower(strings.TrimSuffix(domain, "."))` -/
+def normName (name : Str) : Str := lower (trimSuffixByte cDot name)
+
+/-- the trie query word `ToSuffixTrieString("^" + domain)` -/
+def trieQuery (dom : Str) : Str := toSuffixTrieString (cHat :: dom)
+
+/-- One bit of `MatchDomainBitmap` (bit-exact path; `none` = panic inside `HasPrefix`).
+`rxHits` = numbers of the regex patterns Go's `regexp` matches against the normalised name. -/
+def BuiltSet.matches (bs : BuiltSet) (dom : Str) (rxHits : List Nat) : Option Bool := do
+  let t ← match bs.trie with
+    | none => some false
+    | some t => t.hasPrefix (trieQuery dom)
+  some (t || acContains bs.ac (cHat :: dom ++ [cDollar]) || bs.rx.any rxHits.contains)
+
+/-- the same with the trie replaced by its contract -/
+def BuiltSet.matchesSpec (bs : BuiltSet) (dom : Str) (rxHits : List Nat) : Bool :=
+  hasPrefixSpec bs.keys (trieQuery dom) || acContains bs.ac (cHat :: dom ++ [cDollar]) || bs.rx.any rxHits.contains
+
+/-- `MatchDomainBitmap`, as the list of set indices whose bit is 1. -/
+def Built.matchIndices (b : Built) (name : Str) (rxHits : List Nat) : Option (List Nat) :=
+  let dom := normName name
+  (List.range b.sets.size).filterMapM fun i =>
+    match b.sets[i]? with
+    | none => some none
+    | some bs => (bs.matches dom rxHits).map fun hit => if hit then some i else none
+
+def Built.matchIndicesSpec (b : Built) (name : Str) (rxHits : List Nat) : List Nat :=
+  let dom := normName name
+  (List.range b.sets.size).filter fun i =>
+    match b.sets[i]? with
+    | none => false
+    | some bs => bs.matchesSpec dom rxHits
+
+/-! ## 6. What the pattern kinds are documented to match -/
+
+/-- `name` is the normalised name (lower case, one trailing dot removed). -/
+def patMatches (kind : Kind) (p : Pat) (name : Str) (rxHits : List Nat) : Bool :=
+  match kind with
+  | .full => name == p.s
+  | .suffix =>
+    if p.s.head? = some cDot then p.s.isSuffixOf name
+    else name == p.s || (cDot :: p.s).isSuffixOf name
+  | .keyword => !p.s.isEmpty && isInfix p.s (cHat :: name ++ [cDollar])
+  | .regex => rxHits.contains p.rxId
+  | .unknown => false
+
+/-- which patterns take part at all (the others are skipped with a warning) -/
+def patValid (kind : Kind) (p : Pat) : Bool :=
+  match kind with
+  | .full | .suffix => p.s.all domainChars.isValid
+  | .keyword => p.s.all acValid
+  | .regex => true
+  | .unknown => false
+
+structure AddCall where
+  idx : Nat
+  kind : Kind
+  pats : List Pat
+deriving Repr
+
+/-- the meaning of a whole configuration for set `i`: some valid pattern added under index `i`
+matches. -/
+def docMatches (log : List AddCall) (i : Nat) (name : Str) (rxHits : List Nat) : Bool :=
+  log.any fun a => a.idx == i && a.pats.any fun p => patValid a.kind p && patMatches a.kind p (normName name) rxHits
+
+def Matcher.replay (bitLength : Nat) (log : List AddCall) : Matcher :=
+  log.foldl (fun m a => m.addSet a.idx a.kind a.pats) (Matcher.new bitLength)
+
 end DaeVerif.C11
